@@ -102,6 +102,15 @@ Definition domain_ok (s : list N) : bool := domain_loop s true.
 (* radv/config.rs dnssl_octets: lengths are UTF-8 octets *)
 Definition utf8_len (c : N) : N := if c <? 128 then 1 else if c <? 2048 then 2 else if c <? 65536 then 3 else 4.
 Definition str_octets (s : list N) : N := fold_right (fun c n => utf8_len c + n) 0 s.
+(* radv/config.rs MAX_CAPTIVE_PORTAL_OCTETS = 255 * 8 - 2: a longer URL does not fit the option and is refused
+   ("captive-portal does not fit in a router advertisement option"), top level and per interface *)
+Definition parse_captive (y : yaml) : outcome unit :=
+  do s <- parse_string y ;
+  match s with
+  | Some u => if 2038 <? str_octets u then Err E_count else Ok tt
+  | None => Ok tt
+  end.
+
 Definition dnssl_octets (l : list (list N)) : N :=
   fold_right (fun d n => fold_right (fun lab m => 1 + str_octets lab + m) 0 (split_on 46 d []) + 1 + n) 0 l.
 
@@ -279,7 +288,7 @@ Fixpoint interface_keys (h : list (yaml * yaml)) (i : iface) : outcome iface :=
         do n <- parse_dnssl v ;
         interface_keys r {| i_min := i_min i; i_max := i_max i; i_prefixes := i_prefixes i;
                             i_pref64 := i_pref64 i; i_rdnss := i_rdnss i; i_dnssl := n |}
-      else if str_is ks "captive-portal" then do _ <- parse_string v ; interface_keys r i
+      else if str_is ks "captive-portal" then do _ <- parse_captive v ; interface_keys r i
       else Err E_key
     end
   end.
@@ -553,7 +562,7 @@ Fixpoint top_keys (fuel : nat) (h : list (yaml * yaml)) (t : top) : outcome top 
         if 2032 <? dnssl_octets l then Err E_count
         else top_keys fuel r {| t_addresses := t_addresses t; t_acls := t_acls t; t_routes := t_routes t; t_ifaces := t_ifaces t;
                                 t_policies := t_policies t; t_dns6 := t_dns6 t; t_dnssl := dnssl_octets l |}
-      else if str_is ks "captive-portal" then do _ <- parse_string v ; top_keys fuel r t
+      else if str_is ks "captive-portal" then do _ <- parse_captive v ; top_keys fuel r t
       else if str_is ks "addresses" then
         do a <- parse_array (parse_string_prefix ip_parse 0) v ;
         top_keys fuel r {| t_addresses := a; t_acls := t_acls t; t_routes := t_routes t; t_ifaces := t_ifaces t;
